@@ -569,4 +569,8 @@ def _(rng):
 def _(rng):
     w = rng.randint(1, 4)
     n = rng.randint(1, 3)
-    return dict(all_series=[farr(rng, rng.randint(w, w + 5), n) for _ in range(rng.randint(1, 4))], window_size=w)
+    k = rng.randint(1, 4)
+    if rng.random() < 0.3:      # all series of one length (a batch of equal-length recordings)
+        t = rng.randint(w, w + 5)
+        return dict(all_series=[farr(rng, t, n) for _ in range(k)], window_size=w)
+    return dict(all_series=[farr(rng, rng.randint(w, w + 5), n) for _ in range(k)], window_size=w)
